@@ -170,7 +170,7 @@ class C03(Check):
     level_text = ('For each generated stack the single-fault space (<= 17 layers x 4 behaviours) is enumerated '
                   'completely and compared, event by event, with a reference interpreter; stacks are sampled by seed.')
     level_note = 'Trusted: the reference onion interpreter (written from the property text, ~90 lines).'
-    required_probes = ('two-unique-types-with-one-class-name', 'chain-consumes-every-injectable', 'same-hook-at-two-positions:static', 'same-hook-at-two-positions:one-instance', 'declared-name-provided-further-in', 'declared-name-offered',
+    required_probes = ('non-unique-non-reorderable-type-twice', 'two-unique-types-with-one-class-name', 'chain-consumes-every-injectable', 'same-hook-at-two-positions:static', 'same-hook-at-two-positions:one-instance', 'declared-name-provided-further-in', 'declared-name-offered',
                        'non-response-value-through-layers', 'unique-type-twice-in-route-list', 'subclass-and-base-in-one-stack', 'closure-hooks', 'second-route-without-own-middlewares', 'render-skipped-for-response', 'no-render-layers-ran', 'unique-deduped', 'three-levels',
                        'swallow-fired', 'double-fault')
 
@@ -180,7 +180,8 @@ class C03(Check):
         for i in range(ntypes):
             phases = [ph for ph in PHASES if rng.random() < 0.6] or [rng.choice(PHASES)]
             u = rng.random() < 0.7
-            types['T%d' % i] = {'unique': u, 'reorderable': (rng.random() < 0.75) if u else True, 'phases': phases,
+            # (a NON-unique type may be non-reorderable, too: that flag only matters for unique types)
+            types['T%d' % i] = {'unique': u, 'reorderable': (rng.random() < 0.75), 'phases': phases,
                                  # a SUBCLASS of an earlier type is still a different type (no de-duplication between them)
                                  'base': ('T%d' % rng.randrange(i)) if (i and rng.random() < 0.35) else None,
                                  # hooks as plain functions from one factory (same __name__/__module__ on every instance)
@@ -296,6 +297,9 @@ class C03(Check):
             res.probe('closure-hooks')
         if any(cfg['types'][t].get('named_like') in used and cfg['types'][t]['unique'] for t in used):
             res.probe('two-unique-types-with-one-class-name')
+        if any(not cfg['types'][t]['unique'] and not cfg['types'][t]['reorderable'] and
+               (cfg['outer'] + (cfg.get('sub') or []) + cfg['route']).count(t) > 1 for t in used):
+            res.probe('non-unique-non-reorderable-type-twice')
         if len(cfg.get('ep_consumes', [])) == 4:
             res.probe('chain-consumes-every-injectable')
         names = [m['name'] for m in order]
